@@ -330,7 +330,36 @@ static void gen_payload(Buf *o, uint8_t base, int texty) {
     for (size_t i = 0; i < n; i++) s[i] = texty ? (uint8_t)(chance(90) ? 'a' + rn(4) : (chance(50) ? 0 : 0x80 + rn(128))) : (uint8_t)r64();
     put_blob(o, base, s, n); free(s);
 }
+/* dense names: all strings over {00, 'a', 'b', 80, ff} of length 0..3 - any two of them exercise the byte comparison */
+static const uint8_t ALPHA[] = { 0x00, 'a', 'b', 0x80, 0xff };
+static void dense_name(uint32_t id, uint8_t *out, int *len) {   /* id in [0,156) */
+    if (id == 0) { *len = 0; return; }
+    if (id < 6) { *len = 1; out[0] = ALPHA[id - 1]; return; }
+    if (id < 31) { id -= 6; *len = 2; out[0] = ALPHA[id / 5]; out[1] = ALPHA[id % 5]; return; }
+    id -= 31; *len = 3; out[0] = ALPHA[id / 25]; out[1] = ALPHA[(id / 5) % 5]; out[2] = ALPHA[id % 5];
+}
+static int dense_cmp(const void *a, const void *b) {
+    uint8_t x[3], y[3]; int xl, yl; dense_name(*(const uint32_t *)a, x, &xl); dense_name(*(const uint32_t *)b, y, &yl);
+    int m = xl < yl ? xl : yl; int r = memcmp(x, y, (size_t)m); return r ? r : xl - yl;
+}
+static void gen_object(Buf *o, int depth, int *budget);
+static void gen_object_dense(Buf *o, int depth, int *budget) {
+    put(o, 0x40);
+    uint32_t ids[6]; int n = (int)rn(depth > 4 ? 3 : 6), k = 0;
+    for (int i = 0; i < n; i++) { uint32_t id = rn(156); int dup = 0; for (int j = 0; j < k; j++) if (ids[j] == id) dup = 1; if (!dup) ids[k++] = id; }
+    qsort(ids, (size_t)k, sizeof *ids, dense_cmp);
+    if (hit(F_DESC) && k >= 2) { uint32_t a = rn((uint32_t)k - 1); uint32_t t = ids[a]; ids[a] = ids[a + 1]; ids[a + 1] = t; }
+    for (int i = 0; i < k && *budget > 0; i++) {
+        (*budget)--; uint8_t nm[3]; int nl; dense_name(ids[i], nm, &nl);
+        put_blob(o, 0x14, nm, (size_t)nl); gen_value(o, depth + 1, budget);
+        if (hit(F_DUP)) { put_blob(o, 0x14, nm, (size_t)nl); gen_value(o, depth + 1, budget); }
+    }
+    if (hit(F_NOEND)) return;
+    put(o, hit(F_WRONGEND) ? 0x43 : 0x41);
+}
+static int dense_pct = 35;
 static void gen_object(Buf *o, int depth, int *budget) {
+    if (chance(dense_pct)) { gen_object_dense(o, depth, budget); return; }
     put(o, 0x40);
     int n = (int)rn(depth > 4 ? 2 : 5), idx = (int)rn(NNM / 2);
     for (int i = 0; i < n && idx < NNM && *budget > 0; i++) {
@@ -398,7 +427,11 @@ static char *hexs(const uint8_t *b, size_t n) { char *s = malloc(2 * n + 2); if 
 static int pick_md(void) { switch (rn(8)) { case 0: return 1; case 1: return 2; case 2: return 3; case 3: return 10; case 4: return 255; default: return 1 + (int)rn(12); } }
 static void new_parser(int k, int md) { unsigned g = rn(1000000); emit("@%d P %d %u %u", k, md, g, garbage_flags0(md, g)); }
 static void init_doc(int k, int arr, Buf *d) { char *h = hexs(d->b, d->n); emit("@%d I %c %s", k, arr ? 'a' : 'o', h); free(h); }
-static const Name *pick_name(void) { return &NM[rn(NNM)]; }
+static uint8_t dn_buf[4]; static Name dn_name;
+static const Name *pick_name(void) {
+    if (chance(35)) { int l; dense_name(rn(156), dn_buf, &l); dn_name.s = (const char *)dn_buf; dn_name.n = l; return &dn_name; }
+    return &NM[rn(NNM)];
+}
 static void emit_field(int k, const char *op, const Name *nm, int ty) {
     char *h = hexs((const uint8_t *)nm->s, (size_t)nm->n);
     int nul = 0; for (int i = 0; i < nm->n; i++) if (!nm->s[i]) nul = 1;
